@@ -245,6 +245,8 @@ def e_mul_scalar(c):
 def e_outer(c):
     Y1 = c.tt()
     Y2 = Y1 if c.rng.random() < 0.25 else c.tt()
+    if c.rng.random() < 0.05:
+        return Call('outer', teneva.outer, [c.own([]), Y2], may_fail=True)         # the empty product as the left factor
     return Call('outer', teneva.outer, [Y1, Y2])
 
 
@@ -836,7 +838,11 @@ def e_func_get(c):
                 return np.stack([np.asarray(x, dtype=float) ** j for j in range(n[0])])
             return fb
         kw = {'funcs': mk() if c.rng.random() < 0.5 else [mk() for _ in range(d)]}
-    return Call('func_get', teneva.func_get, [X, A], kw)
+        if c.rng.random() < 0.4:
+            # own basis functions together with a box: points outside of it (X reaches 1.2) are skipped
+            a, b = _box(c, d)
+            kw.update(a=a, b=b, z=-7.0)
+    return Call('func_get', teneva.func_get, [X, A], kw, may_fail=bool(kw.get('funcs')) and 'a' in kw)
 
 
 @entry()
@@ -1358,6 +1364,8 @@ def e_als(c):
             kw['use_stab'] = True     # raises for every input on the pinned tree (orthogonalize returns a pair); kept so that a repair is exercised
     if c.rng.random() < 0.2:
         kw['allow_skip_cores'] = True
+    if 'r' not in kw and kw.get('lamb', 1.0) is not None and c.rng.random() < 0.08:
+        kw['update_sol'] = True            # undocumented: the cores are corrected instead of replaced
     if c.rng.random() < 0.5:
         cb_at = int(c.rng.integers(1, 4)) if c.rng.random() < 0.4 else None
         sw = {'s': 0}
